@@ -36,7 +36,7 @@ impl Monitor for C06 {
 
     fn generate(&self, rng: &mut Rng, _tier: Tier) -> J {
         let not_null = rng.chance(1, 3);
-        let (mut case, t, mut sel, shape) = gen_base(rng, &BaseCfg { shapes: &[Shape::Plain, Shape::Distinct, Shape::Aggregate, Shape::Aggregate, Shape::Join, Shape::JoinAggregate], allow_limit: true, allow_having: true, agg_distinct: false, order_insensitive_only: false, exact_data: true, min_lines: 2, max_lines: 16, not_null_column: not_null });
+        let (mut case, t, mut sel, shape) = gen_base(rng, &BaseCfg { shapes: &[Shape::Plain, Shape::Distinct, Shape::Aggregate, Shape::Aggregate, Shape::Join, Shape::JoinAggregate], allow_limit: true, allow_having: true, agg_distinct: false, order_insensitive_only: false, exact_data: true, min_lines: 2, max_lines: 16, not_null_column: not_null, big_rate: 300, big_lines: 800 });
         if !matches!(shape, Shape::Aggregate | Shape::JoinAggregate) && rng.chance(1, 3) { sel.limit = Some(rng.below(6) as u64); case["stmt"] = json!(sel.text(Paren::Full)); }
         // regex flavour, sometimes: TEXT fields are optional non-empty groups, so that a line with every field present but
         // empty matches the pattern and still obtains no value at all (not even an empty string)
